@@ -192,8 +192,11 @@ def gen_cases(tier, seed):
             # what a relative link text would designate inside the destination directory: an unrelated entry there
             if sh_ == "linkdir" and any(e["p"] == "dst" and e["k"] == "d" for e in pre) and r.random() < 0.7:
                 pre += [{"p": "dst/rd%d" % k_, "k": "d"}, {"p": "dst/rd%d/inside" % k_, "k": "f", "size": 17, "seed": 99, "segs": None}]
-        spell = r.choice(["plain", "plain", "slash", "dot", "abs", "dotdot"])
+        spell = r.choice(["plain", "plain", "slash", "dot", "abs", "dotdot", "slashdot"])
+        if spell == "slashdot" and (nsrc > 1 or dstate in ("file", "linkdir") or flag0 in ("-T", "--glob")):
+            spell = "slash"      # (several sources spelled `dir/.` all map onto the destination itself; keep that to one)
         def sp(s, isdir):
+            if spell == "slashdot" and isdir: return s + "/."
             if spell == "slash" and isdir: return s + "/"
             if spell == "dot": return "./" + s
             if spell == "abs": return "@ROOT@/" + s
@@ -280,6 +283,9 @@ def run_case(case):
         post = tree.snapshot(root)
         try:
             srcs_ = case["sources"] * 2 if case["flag"] == "--glob" and len([a for a in case["args"] if a.endswith("s*") or a.endswith("s?")]) > 1 else case["sources"]
+            if case.get("spell") == "slashdot":
+                # the model is given the sources as they were spelled: `dir/.` stands for the directory's contents
+                srcs_ = [s + "/." if sh in ("tree", "deep", "verydeep", "emptydir") else s for s, sh in zip(case["sources"], case["shapes"])]
             mapping, dest_rel = model.map_sources(pre, root, srcs_, "dst", no_target_dir=case["T"])
         except model.ModelSkip as e:
             res["inconc"].append("model-skip")
